@@ -77,6 +77,8 @@ impl rustc_driver::Callbacks for Cb {
         J::Arr(feats).write(&mut out);
         out.push_str(",\"items\":");
         items.write(&mut out);
+        out.push_str(",\"extern_debug\":");
+        items::extern_debug_impls(tcx).write(&mut out);
         out.push_str(",\"extern_panics\":");
         items::extern_panics(tcx).write(&mut out);
         out.push_str(",\"thir\":");
